@@ -1,5 +1,6 @@
 import DigModel.Proofs.Parse
 import DigModel.Proofs.Rollback
+import DigModel.Proofs.GhBoundApi
 /-
   C14 — Bad input yields errors, never panics.
 
@@ -16,7 +17,15 @@ import DigModel.Proofs.Rollback
     signature is rejected, change nothing: the state afterwards equals the state before (the graph nodes of
     value-group parameters added by the parse are rolled back — repairs of F15 and F16, `parse_rollback_eq`);
   * `C14_no_events`: no rejected registration executes user code (C03_passive).
-  "Never panics" itself is a statement about the Go runtime: it is observed by the correspondence check
+  * `C14_never_panics` (whole programs, every input of the grammar, every history): no operation of any program
+    makes the model answer `panicDig`.  The model answers `panicDig` exactly where the Go code it follows would
+    panic by itself: an order outside a graph holder or an unfinishable recursion in `graph.IsAcyclic`, a
+    constructor listed as provider of a key it does not declare, a constructor or decorator that has run but
+    whose value is not in the cache it was stored in.  These sites are unreachable: `SafeInv` (registry
+    consistency `RegInv`/`RegWF`, node homes `HomeOK`, "built implies cached" `Cached`, order bounds `OB`) holds
+    in every reachable container (`C14_reachable_safe`), `engine_nobug` excludes the resolver's sites under it and
+    `checkAcyclic_total` the graph check's.
+  "Never panics" beyond those sites is a statement about the Go runtime: it is observed by the correspondence check
   (any panic escaping dig, any process failure is a violation with the program as replay) under a
   generator profile in which 55 % of the registrations come from the malformed stream.
   The rejected-Provide half (`C06_unchanged`) lives in Props/C06.lean.
@@ -84,6 +93,23 @@ theorem C14_rejected_invoke_parse (ctx : Ctx) (fn : Fn) (hnf : fn.nonfunc = none
 theorem C14_no_events (ctx : Ctx) (fns : List Fn) (st : St) (i : Nat) (op : Op) (h : op.isInvoke = false) :
     (step ctx fns st i op).2.ev = [] := step_passive ctx fns st i op h
 
+theorem C14_never_panics (p : Program) : ∀ r ∈ (runProgram p).2, r.v ≠ .panicDig := program_never_panics p
+
+theorem C14_reachable_safe (p : Program) : SafeInv p.types (runProgram p).1 := program_safeInv p
+
+/-- the resolver itself, on any container satisfying the invariant, with any well-formed parameter list -/
+theorem C14_resolver_no_panic (ctx : Ctx) (st : St) (h : SafeInv ctx.env st) (fuel : Nat) (ps : List Param) (c : Nat)
+    (hwf : ParamsWF ps) : (buildList ctx fuel ps c st).1 ≠ .error .bug :=
+  (engine_nobug ctx _ _ fuel).2.2.2.2.2 ps c st hwf h.nb.ei
+
+/-- the graph check, on any container satisfying the invariant, in any scope -/
+theorem C14_check_no_panic (env : TyEnv) (st : St) (h : SafeInv env st) (s : Nat) :
+    checkAcyclic st s ≠ .outOfRange ∧ checkAcyclic st s ≠ .fuel := checkAcyclic_total h.ob s
+
+#print axioms C14_never_panics
+#print axioms C14_reachable_safe
+#print axioms C14_resolver_no_panic
+#print axioms C14_check_no_panic
 #print axioms C14_nonfunc
 #print axioms C14_bad_options
 #print axioms C14_rejected_decorate
